@@ -24,11 +24,35 @@ LOOP = '''        invariant
                 else if version1_part@.len() > 0 { Ordering::Greater } else { Ordering::Less }),
         decreases version1_part@.len() + version2_part@.len(),'''
 
+def mc_rule():
+    """closure contracts spliced on the predicates handed to matching_contiguous, BY POSITION: the first two calls
+    (the numeric branch) must be handed a predicate that decides "ASCII digit", the next two "ASCII letter" -
+    whatever expression the code uses for it (a closure, a function path)."""
+    state = {'n': 0}
+
+    def repl(m):
+        k = state['n']
+        state['n'] += 1
+        cls = 'is_digit' if k < 2 else 'is_alpha'
+        pred = m.group(2).strip()
+        mm = re.match(r'\|(\w+)\|\s*(.*)$', pred, re.S)
+        body = ('{ let %s = c; %s }' % (mm.group(1), mm.group(2))) if mm else ('{ %s(c) }' % pred)
+        return 'matching_contiguous(%s, |c: char| -> (b: bool) ensures b == %s(c) %s)' % (m.group(1), cls, body)
+    return (re.compile(r'matching_contiguous\((\w+),\s*((?:[^()]|\([^()]*\))*)\)'), repl, None, 'closure contract spliced, by call position (digit, digit, letter, letter)')
+
+
 PARTS = [Prelude('head.rs'), Prelude('vercmp.rs')] + [
     Raw('''
 pub assume_specification[ char::is_ascii_alphanumeric ](c: &char) -> (r: bool) ensures r == is_alnum(*c);
 pub assume_specification[ char::is_ascii_digit ](c: &char) -> (r: bool) ensures r == is_digit(*c);
 pub assume_specification[ char::is_ascii_alphabetic ](c: &char) -> (r: bool) ensures r == is_alpha(*c);
+/// the Unicode-aware classes: NOT the ASCII ones (nothing is assumed about them beyond being functions of the character)
+pub uninterp spec fn uni_alpha(c: char) -> bool;
+pub uninterp spec fn uni_numeric(c: char) -> bool;
+pub uninterp spec fn uni_alnum(c: char) -> bool;
+pub assume_specification[ char::is_alphabetic ](c: char) -> (r: bool) ensures r == uni_alpha(c);
+pub assume_specification[ char::is_numeric ](c: char) -> (r: bool) ensures r == uni_numeric(c);
+pub assume_specification[ char::is_alphanumeric ](c: char) -> (r: bool) ensures r == uni_alnum(c);
 // ---- A-STR: the str functions used, with their documented meaning ------------------------------------
 #[verifier::external_body]
 pub fn str_eq(a: &str, b: &str) -> (r: bool) ensures r == (a@ == b@) { a == b }
@@ -116,8 +140,7 @@ pub proof fn lemma_digits_len(s: Seq<char>)
              (re.compile(r"\b(\w+)\.strip_prefix\(('[~^]')\)"), r'strip_prefix_char(\1, \2)', None, 'R32-str::strip_prefix(char)'),
              (re.compile(r'\b(\w+)\.is_empty\(\)'), r'str_is_empty(\1)', None, 'R32-str::is_empty'),
              (re.compile(r'\b(\w+)\.starts_with\(\|c: char\| c\.is_ascii_digit\(\)\)'), r'starts_with_fn(\1, |c: char| -> (b: bool) ensures b == is_digit(c) { c.is_ascii_digit() })', 1, 'R32 + closure contract spliced'),
-             (re.compile(r'matching_contiguous\((\w+), \|c\| c\.is_ascii_digit\(\)\)'), r'matching_contiguous(\1, |c: char| -> (b: bool) ensures b == is_digit(c) { c.is_ascii_digit() })', None, 'closure contract spliced'),
-             (re.compile(r'matching_contiguous\((\w+), \|c\| c\.is_ascii_alphabetic\(\)\)'), r'matching_contiguous(\1, |c: char| -> (b: bool) ensures b == is_alpha(c) { c.is_ascii_alphabetic() })', None, 'closure contract spliced'),
+             mc_rule(),
              (re.compile(r"\b(\w+)\.trim_start_matches\('0'\)"), r'trim_start_zeros(\1)', None, 'R32-str::trim_start_matches(char)'),
              (re.compile(r'\b(\w+)\.len\(\)\.cmp\(&(\w+)\.len\(\)\)'), r'cmp_len(\1, \2)', None, 'R32-byte lengths compared'),
              (re.compile(r'\b(prefix1)\.cmp\((prefix2)\)'), r'str_cmp(\1, \2)', None, 'R32-str::cmp'),
